@@ -19,6 +19,8 @@ func init() {
 		Explain: otherNote + "C01: decided = altitude-to-index conversion floors (no truncation, no biased floor); one output per input point in input order; each index is labelled with the zoom of its own axis; the spatial-ID form is the extended form with h = v plus the canonical permutation; zoom and nil-point guards dominate success.",
 		Canary: []CanaryExpect{
 			{Rule: "ROUND", Bad: "canaryBadTruncAlt", Good: "canaryGoodFloorAlt"},
+			{Rule: "MAPORDER", Bad: "canaryBadSkipAppend", Good: "canaryGoodMapLoop"},
+			{Rule: "GUARD", Bad: "canaryBadZoomGuard", Good: "canaryGoodZoomGuard"},
 		}})
 	register(&propSpec{ID: "C03", Level: "other", Run: runC03,
 		Explain: otherNote + "C03: decided = vertical zoom-out floors; results pass a de-duplication on every success path; every output field is at the requested zoom of its own axis and axes are wired independently; the single-zoom form delegates with (zoom, zoom).",
@@ -50,6 +52,11 @@ func runC01(w *World, r *Report, tier string) {
 	kr.emit(w, r, []string{"ROUND", "FLOOR-NOBIAS", "KIND-CALL", "KIND-LAYOUT", "KIND-STORE"}, cl)
 	if f := lookupByName(w, "shape.GetExtendedSpatialIdsOnPoints"); f != nil {
 		ruleMapOrder(w, r, f, 0)
+	}
+	for _, f := range canaryFuncs(w) {
+		if containsAny(f.Name(), "canaryBadSkipAppend", "canaryGoodMapLoop") {
+			ruleMapOrder(w, r, f, 0)
+		}
 	}
 	ruleWrapper(w, r, wrapperSpec{Wrapper: "shape.GetSpatialIdsOnPoints", Extended: "shape.GetExtendedSpatialIdsOnPoints", ZoomArg: 1, ExtH: 1, ExtV: 2, IDsArg: -1, PassArgs: [][2]int{{0, 0}}})
 	guardRows(w, r, "C01")
